@@ -386,14 +386,15 @@ class SccContext:
       # Erase buffered caption
       self.new_buffered_caption()
 
-    elif control_code is SccControlCode.TO1:
-      self.get_caption_to_process().indent_cursor(1)
+    elif control_code in (SccControlCode.TO1, SccControlCode.TO2, SccControlCode.TO3):
 
-    elif control_code is SccControlCode.TO2:
-      self.get_caption_to_process().indent_cursor(2)
+      caption = self.get_caption_to_process()
 
-    elif control_code is SccControlCode.TO3:
-      self.get_caption_to_process().indent_cursor(3)
+      if caption is None or caption.get_current_line() is None:
+        # there is no row whose cursor could be moved
+        LOGGER.warning("Tab offset received before any caption row")
+      else:
+        caption.indent_cursor({SccControlCode.TO1: 1, SccControlCode.TO2: 2, SccControlCode.TO3: 3}[control_code])
 
     elif control_code is SccControlCode.CR:
       # Roll the displayed caption up one row (Roll-Up)
